@@ -27,6 +27,9 @@ type Case struct {
 	Probe    string `json:"probe"`    // n-1 | n | n+1 | 2n | big | bomb | fatwire | okcomp | lie-short | lie-long | lie-max
 	Encoding string `json:"encoding"` // algorithm for compressed probes / good messages
 	GoodComp bool   `json:"good_comp"`
+	// ContentLength: the request announces its body size (as clients with a
+	// fixed-size body do); handler side only.
+	ContentLength bool `json:"content_length,omitempty"`
 }
 
 // textFor returns a text such that the encoded ping message has exactly size bytes (if possible).
@@ -295,7 +298,7 @@ func runHandler(c Case, p plan, measure bool) outcome {
 		runtime.GC()
 		runtime.ReadMemStats(&before)
 	}
-	rec := memnet.Serve(h, "POST", prog.Procedure(c.Kind), req.Header, bytes.NewReader(p.body), memnet.ServeOpts{})
+	rec := memnet.Serve(h, "POST", prog.Procedure(c.Kind), req.Header, bytes.NewReader(p.body), memnet.ServeOpts{HaveContentLength: c.ContentLength, ContentLength: int64(len(p.body))})
 	if measure {
 		runtime.ReadMemStats(&after)
 		o.allocated = after.TotalAlloc - before.TotalAlloc
@@ -455,6 +458,7 @@ func gen(t *rapid.T) Case {
 	default:
 		c.Encoding = rapid.SampledFrom([]string{"", "", "gzip", "toy"}).Draw(t, "encoding")
 	}
+	c.ContentLength = c.Dir == "handler" && rapid.Bool().Draw(t, "contentLength")
 	if multi(c.Dir, c.Kind) {
 		c.Good = rapid.IntRange(0, 3).Draw(t, "good")
 		c.GoodComp = rapid.Bool().Draw(t, "goodcomp")
